@@ -36,7 +36,7 @@ func lineCoverage(diags []Diagnostic) (lines []int) {
 }
 
 // SplitLines splits content into lines the same way the YAML parser counts them:
-// a line ends with \n, \r\n or a \r that is not followed by \n.
+// a line ends with \n, \r\n, a \r that is not followed by \n, or one of NEL, LS and PS.
 func SplitLines(content string) (lines []string) {
 	var start int
 	for i := 0; i < len(content); i++ {
@@ -50,6 +50,16 @@ func SplitLines(content string) (lines []string) {
 			}
 			lines = append(lines, content[start:i])
 			start = i + 1
+		case 0x85:
+			if i > 0 && content[i-1] == 0xC2 {
+				lines = append(lines, content[start:i-1])
+				start = i + 1
+			}
+		case 0xA8, 0xA9:
+			if i > 1 && content[i-2] == 0xE2 && content[i-1] == 0x80 {
+				lines = append(lines, content[start:i-2])
+				start = i + 1
+			}
 		}
 	}
 	return append(lines, content[start:])
